@@ -57,11 +57,13 @@ def _ops():
     add("bulk:T1B1,5aB1", [(T1, B1), ("#5a5a5a", B1)], 1, False)
     # a far-side pair (text lighter than a mid-tone background): the search direction depends on the *minimum*, so the
     # variants below differ in exactly one setting yet take different paths through the same routine
-    FT, FB = "#808080", "#646464"
-    add("mr:far/m1", FT, FB, 1, False, False)
-    add("mr:far/m1/vr", FT, FB, 1, False, True)
-    add("mr:far/m1/large", FT, FB, 1, True, False)
-    add("mr:far/m0", FT, FB, 0, False, False)
+    # (near-black large text on #636363: black reaches the ordinary 3.0 within dE 5 but never the very_readable 4.5, so the
+    # two requests walk in opposite directions; the op called .../large is the one-setting variant in text size)
+    FT, FB = "#171717", "#636363"
+    add("mr:far/m1", FT, FB, 1, True, False)
+    add("mr:far/m1/vr", FT, FB, 1, True, True)
+    add("mr:far/m1/large", FT, FB, 1, False, False)
+    add("mr:far/m0", FT, FB, 0, True, False)
     # relaxed mode beyond its recursive pre-pass (the branch-witness pair of mc/lattice.py), single-setting variants
     BWT, BWB = (177, 235, 241), (141, 109, 0)
     add("mr:bw/m2", BWT, BWB, 2, False, False)
